@@ -63,7 +63,13 @@ const altLexicalSchema = "https://example.org/schemas/lexical.yaml"
 
 // the concrete spelling of the abstract validation names a, b, ghost: text that looks like a YAML comment when the
 // quoting is ignored, so that two profiles may differ in nothing but the characters after " #"
-func rpName(v string) string { return "rule #" + v }
+// The name that is never defined ("ghost") is spelt like the defined name a in another letter case.
+func rpName(v string) string {
+	if v == "ghost" {
+		return "RULE #A"
+	}
+	return "rule #" + v
+}
 
 func renderRpProfile(c rpCase) string {
 	doc := map[string]any{"profile": c.Profile.Name, "prefixes": map[string]any{"ex": exNS}}
@@ -154,6 +160,9 @@ func projectRp(rep string, err error, cfg config.ReportConfiguration) rpProj {
 			m, _ := r.(map[string]any)
 			sev, _ := m["resultSeverity"].(string)
 			name, _ := m["sourceShapeName"].(string)
+			if name == "RULE #A" {
+				name = "ghost"
+			}
 			name = strings.TrimPrefix(name, "rule #")
 			focus, _ := m["focusNode"].(string)
 			p.Results = append(p.Results, rpResult{strings.TrimPrefix(sev, "http://www.w3.org/ns/shacl#"), name, strings.TrimPrefix(focus, nodeNS)})
@@ -170,10 +179,18 @@ func projectRp(rep string, err error, cfg config.ReportConfiguration) rpProj {
 	// the lexical schema only appears in the context of a report that has results
 	repAlt := rs == altReportSchema+"#/declarations/"
 	lexAlt := hasLs && ls == altLexicalSchema+"#/declarations/"
-	known := (repAlt || rs == def.ReportSchemaIri+"#/declarations/") && (!hasLs || lexAlt || ls == def.LexicalSchemaIri+"#/declarations/")
+	repNone := rs == "#/declarations/"
+	lexNone := hasLs && ls == "#/declarations/"
+	known := (repAlt || repNone || rs == def.ReportSchemaIri+"#/declarations/") && (!hasLs || lexAlt || lexNone || ls == def.LexicalSchemaIri+"#/declarations/")
 	switch {
 	case !known:
 		p.Schema = "other:" + rs + "|" + ls
+	case repNone && (lexNone || !hasLs):
+		p.Schema = "none"
+	case repNone && !lexAlt:
+		p.Schema = "noRep"
+	case lexNone && !repAlt:
+		p.Schema = "noLex"
 	case repAlt && (lexAlt || !hasLs):
 		p.Schema = "alt"
 	case repAlt:
@@ -212,6 +229,12 @@ func runReport(c rpCase) (o rpObs) {
 		cfg.LexicalSchemaIri = altLexicalSchema
 	case "altRep":
 		cfg.ReportSchemaIri = altReportSchema
+	case "none":
+		cfg.ReportSchemaIri, cfg.LexicalSchemaIri = "", ""
+	case "noRep":
+		cfg.ReportSchemaIri = ""
+	case "noLex":
+		cfg.LexicalSchemaIri = ""
 	}
 	func() {
 		defer func() {
